@@ -891,7 +891,7 @@ theorem idMask_spec (ids keep : List Id) (invert : Bool) (hn : ids.Nodup) :
       · intro hm
         exact ⟨ids[j], hm, hn.idxOf_getElem j hj⟩
     · have : ids.length ≤ j := by omega
-      simp [List.getElem?_eq_none this, List.getElem?_replicate, hj]
+      simp [hj]
   · rw [if_neg hall, if_neg hall]
 
 /-! ### transposition of rectangular grids -/
@@ -904,7 +904,7 @@ theorem colAt_eq_map [Zero α] (rows : List (List α)) (j : Nat) (h : ∀ r ∈ 
     have hr : j < r.length := h r List.mem_cons_self
     have := ih (fun r' hr' => h r' (List.mem_cons_of_mem _ hr'))
     simp only [colAt] at this ⊢
-    simp [List.filterMap_cons, List.getElem?_eq_getElem hr, this, List.getD]
+    simp [List.getElem?_eq_getElem hr, this, List.getD]
 
 theorem range_map_getD [Zero α] (l : List α) : (List.range l.length).map (l.getD · 0) = l := by
   apply List.ext_getElem
@@ -1118,7 +1118,7 @@ theorem lookupBy_eq_getElem? {β : Type} (ids : List Id) (xs : List β) (id : Id
     | nil => simp [lookupBy]
     | cons x xs =>
       by_cases he : a = id
-      · simp [lookupBy, he, List.idxOf_cons]
+      · simp [lookupBy, he]
       · have hm : id ∈ as := by
           rcases List.mem_cons.mp h with h | h
           · exact absurd h.symm he
@@ -1131,7 +1131,7 @@ theorem indexOf?_getElem (ids : List Id) (hn : ids.Nodup) (i : Nat) (hi : i < id
     indexOf? ids ids[i] = some i := by
   rw [indexOf?_of_mem ids _ (List.getElem_mem hi), hn.idxOf_getElem i hi]
 
-theorem vec?_getElem (t : Table α) (hwf : t.WF) (ax : Axis) (hn : (t.ids ax).Nodup) (i : Nat)
+theorem vec?_getElem (t : Table α) (_hwf : t.WF) (ax : Axis) (hn : (t.ids ax).Nodup) (i : Nat)
     (hi : i < (t.ids ax).length) (hv : i < (vecs t ax).length) :
     t.vec? ax (t.ids ax)[i] = some (vecs t ax)[i] := by
   cases ax with
